@@ -4,7 +4,7 @@
    database as key -> rows, query, the location FindLocation returned, the ECS option to echo,
    max-answer.  [wire_name n] = n is an uncompressed wire name (labels of 1..63 bytes, <= 255). *)
 From DnsV Require Import Base.Bytes Model.Store Model.LookupV1 Model.LookupV2 Model.Serve.
-From DnsV Require Import Spec.Answer Spec.Rows Proofs.ZoneCut Proofs.Serve Proofs.NoPanic Proofs.Shape Proofs.Reverse.
+From DnsV Require Import Spec.Answer Spec.Rows Proofs.ZoneCut Proofs.Serve Proofs.NoPanic Proofs.Shape Proofs.Reverse Proofs.Size.
 Open Scope N_scope.
 
 (* CDB and RocksDB with v1 keys (the label-by-label reader): no panic and no fuel exhaustion
@@ -54,6 +54,26 @@ Theorem C13_reply_shape_outside_finding : forall b st q locr ecs max x,
   serve b st q locr ecs max = OReply x -> rs_id x = q_id q /\ rs_question x = question_of q.
 Proof. exact serve_echoes. Qed.
 Print Assumptions C13_reply_shape_outside_finding.
+
+(* C13_size_partial: the size clause over an abstract size function.  [size] (packed length) and
+   [truncate] (miekg Msg.Truncate as called by request.Scrub) are library behaviour and enter as
+   arbitrary functions satisfying the contract the handler relies on: truncate n r fits into n >= 512,
+   leaves a fitting message alone, and reports TC when it changed the message.  Then every reply of
+   serve - whose OPT with the echoed client-subnet option is part of the reply BEFORE it is fitted,
+   as in the code - goes on the wire within max(512, advertised size), unchanged if it fits and with
+   TC set otherwise.  Partial: the contract itself is not proved (the differential run observes the
+   real sizes over a UDP writer: Run/C13.v udp_ok) *)
+Theorem C13_size_partial : forall (size : response -> N) (truncate : N -> response -> response * bool),
+  (forall n r, 512 <= n -> size (fst (truncate n r)) <= n) ->
+  (forall n r, size r <= n -> truncate n r = (r, false)) ->
+  (forall n r, fst (truncate n r) <> r -> snd (truncate n r) = true) ->
+  forall b st q locr ecs max adv r,
+  serve b st q locr ecs max = OReply r ->
+  size (fst (written truncate adv r)) <= limit adv /\
+  (size r <= limit adv -> written truncate adv r = (r, false)) /\
+  (fst (written truncate adv r) <> r -> snd (written truncate adv r) = true).
+Proof. exact written_fits. Qed.
+Print Assumptions C13_size_partial.
 
 (* the hypotheses are satisfiable and the conclusion is not vacuous: a referral from a delegated root *)
 Example C13_example :
